@@ -1,6 +1,6 @@
 (** C01 — Each generated input is benchmarked once; each value is dropped once.
     Statements only; each closed by [exact] of a lemma in Proofs/Sample*.v. *)
-From DivanV Require Import Base.Res Model.Sample Proofs.Sample Proofs.SamplePlace.
+From DivanV Require Import Base.Res Model.Sample Proofs.Sample Proofs.SamplePlace Proofs.SamplePanic.
 Local Open Scope nat_scope.
 
 (** For all six entry points [e], all declared type shapes [sh] ({ZST, sized} x
@@ -64,3 +64,38 @@ Theorem C01_thread_affine : forall c t,
   Forall (fun e => ev_thread_ok t e = true) (thread_log c t).
 Proof. exact thread_affine. Qed.
 Print Assumptions C01_thread_affine.
+
+(** Panic safety.  For every entry point, shape, sample size, counter set and
+    every index [k] at which the benchmarked function ([PanicCall]) or the
+    generator ([PanicGen]) panics: the part of the sample that ran, the
+    unwinding callee's disposal of an argument it owns, and the destructors that
+    unwinding runs in the loop (none: the deferred store frees a [Vec] of
+    [MaybeUninit] cells, thin-air cells are [MaybeUninit], the barrier guard only
+    waits) never misuse a cell; the events seen by user code and destructors
+    contain no second drop of a value and no use of a dropped value.  Values may
+    be leaked (the statement says nothing about the final store). *)
+Theorem C01_panic_safe : forall e sh n cs u multi site k,
+  (exists st, exec (cut_prog site k (sample_prog e sh n cs u)) empty_store = SOk st)
+  /\ sb_nodouble_local (obs (vis_of e sh multi) (cut_prog site k (sample_prog e sh n cs u))) = true.
+Proof. exact panic_safe. Qed.
+Print Assumptions C01_panic_safe.
+
+(** The cut is the program up to the call with index [k], then that call unwinding. *)
+Theorem C01_cut_is_prefix : forall k l1 r c l2,
+  Forall (fun a => match a with Call i _ _ => i <> k | _ => True end) l1 ->
+  cut_at_call k (l1 ++ Call k r c :: l2) = l1 ++ [CallPanic k r c].
+Proof. exact cut_at_call_prefix. Qed.
+Print Assumptions C01_cut_is_prefix.
+
+(** In general: whatever list of loop actions respects the cell discipline of
+    [exec] shows user code no double drop and no use after drop ([rel] ties the
+    monitor's "dropped" flags to dropped cells). *)
+Theorem C01_discipline_implies_nodouble : forall v l s s' nd,
+  exec l s = SOk s' -> rel s nd -> exists nd', ndl_exec (obs v l) nd = Some nd' /\ rel s' nd'.
+Proof. exact exec_implies_nodouble. Qed.
+Print Assumptions C01_discipline_implies_nodouble.
+
+Theorem C01_nodouble_sample : forall e sh n cs u multi,
+  sb_nodouble_local (obs (vis_of e sh multi) (sample_prog e sh n cs u)) = true.
+Proof. exact nodouble_sample. Qed.
+Print Assumptions C01_nodouble_sample.
